@@ -6,6 +6,7 @@ CONSTANTS Pkgs <- P2
  Under <- UnderSib2
  RootPkg = "none"
  HashCoversSum = FALSE
+ SkipUnknown = FALSE
  SaveAlways = FALSE
  KeepAfterDefers = TRUE
  BehChoices <- Beh2Small
